@@ -22,6 +22,9 @@ model/HtmlDecode.vos model/HtmlDecode.vok model/HtmlDecode.required_vos: model/H
 model/RendererM.vo model/RendererM.glob model/RendererM.v.beautified model/RendererM.required_vo: model/RendererM.v lib/Bytes.vo gen/Facts_render.vo
 model/RendererM.vio: model/RendererM.v lib/Bytes.vio gen/Facts_render.vio
 model/RendererM.vos model/RendererM.vok model/RendererM.required_vos: model/RendererM.v lib/Bytes.vos gen/Facts_render.vos
+model/RunLoopM.vo model/RunLoopM.glob model/RunLoopM.v.beautified model/RunLoopM.required_vo: model/RunLoopM.v lib/Bytes.vo gen/Facts_render.vo
+model/RunLoopM.vio: model/RunLoopM.v lib/Bytes.vio gen/Facts_render.vio
+model/RunLoopM.vos model/RunLoopM.vok model/RunLoopM.required_vos: model/RunLoopM.v lib/Bytes.vos gen/Facts_render.vos
 model/TCalcM.vo model/TCalcM.glob model/TCalcM.v.beautified model/TCalcM.required_vo: model/TCalcM.v lib/Bytes.vo gen/Facts_render.vo model/RendererM.vo
 model/TCalcM.vio: model/TCalcM.v lib/Bytes.vio gen/Facts_render.vio model/RendererM.vio
 model/TCalcM.vos model/TCalcM.vok model/TCalcM.required_vos: model/TCalcM.v lib/Bytes.vos gen/Facts_render.vos model/RendererM.vos
@@ -37,15 +40,18 @@ proofs/HtmlDecode_proofs.vos proofs/HtmlDecode_proofs.vok proofs/HtmlDecode_proo
 proofs/Renderer_proofs.vo proofs/Renderer_proofs.glob proofs/Renderer_proofs.v.beautified proofs/Renderer_proofs.required_vo: proofs/Renderer_proofs.v lib/Bytes.vo gen/Facts_render.vo model/RendererM.vo
 proofs/Renderer_proofs.vio: proofs/Renderer_proofs.v lib/Bytes.vio gen/Facts_render.vio model/RendererM.vio
 proofs/Renderer_proofs.vos proofs/Renderer_proofs.vok proofs/Renderer_proofs.required_vos: proofs/Renderer_proofs.v lib/Bytes.vos gen/Facts_render.vos model/RendererM.vos
+proofs/RunLoop_proofs.vo proofs/RunLoop_proofs.glob proofs/RunLoop_proofs.v.beautified proofs/RunLoop_proofs.required_vo: proofs/RunLoop_proofs.v lib/Bytes.vo gen/Facts_render.vo model/RunLoopM.vo
+proofs/RunLoop_proofs.vio: proofs/RunLoop_proofs.v lib/Bytes.vio gen/Facts_render.vio model/RunLoopM.vio
+proofs/RunLoop_proofs.vos proofs/RunLoop_proofs.vok proofs/RunLoop_proofs.required_vos: proofs/RunLoop_proofs.v lib/Bytes.vos gen/Facts_render.vos model/RunLoopM.vos
 proofs/TCalc_proofs.vo proofs/TCalc_proofs.glob proofs/TCalc_proofs.v.beautified proofs/TCalc_proofs.required_vo: proofs/TCalc_proofs.v lib/Bytes.vo gen/Facts_render.vo model/RendererM.vo proofs/Renderer_proofs.vo model/TCalcM.vo
 proofs/TCalc_proofs.vio: proofs/TCalc_proofs.v lib/Bytes.vio gen/Facts_render.vio model/RendererM.vio proofs/Renderer_proofs.vio model/TCalcM.vio
 proofs/TCalc_proofs.vos proofs/TCalc_proofs.vok proofs/TCalc_proofs.required_vos: proofs/TCalc_proofs.v lib/Bytes.vos gen/Facts_render.vos model/RendererM.vos proofs/Renderer_proofs.vos model/TCalcM.vos
 proofs/TSrc_proofs.vo proofs/TSrc_proofs.glob proofs/TSrc_proofs.v.beautified proofs/TSrc_proofs.required_vo: proofs/TSrc_proofs.v lib/Bytes.vo gen/Facts_render.vo gen/Facts_escapers.vo model/RendererM.vo proofs/Renderer_proofs.vo model/TCalcM.vo proofs/TCalc_proofs.vo model/TSrcM.vo
 proofs/TSrc_proofs.vio: proofs/TSrc_proofs.v lib/Bytes.vio gen/Facts_render.vio gen/Facts_escapers.vio model/RendererM.vio proofs/Renderer_proofs.vio model/TCalcM.vio proofs/TCalc_proofs.vio model/TSrcM.vio
 proofs/TSrc_proofs.vos proofs/TSrc_proofs.vok proofs/TSrc_proofs.required_vos: proofs/TSrc_proofs.v lib/Bytes.vos gen/Facts_render.vos gen/Facts_escapers.vos model/RendererM.vos proofs/Renderer_proofs.vos model/TCalcM.vos proofs/TCalc_proofs.vos model/TSrcM.vos
-props/C05.vo props/C05.glob props/C05.v.beautified props/C05.required_vo: props/C05.v lib/Bytes.vo gen/Facts_render.vo model/RendererM.vo proofs/Renderer_proofs.vo
-props/C05.vio: props/C05.v lib/Bytes.vio gen/Facts_render.vio model/RendererM.vio proofs/Renderer_proofs.vio
-props/C05.vos props/C05.vok props/C05.required_vos: props/C05.v lib/Bytes.vos gen/Facts_render.vos model/RendererM.vos proofs/Renderer_proofs.vos
+props/C05.vo props/C05.glob props/C05.v.beautified props/C05.required_vo: props/C05.v lib/Bytes.vo gen/Facts_render.vo model/RendererM.vo proofs/Renderer_proofs.vo model/RunLoopM.vo proofs/RunLoop_proofs.vo
+props/C05.vio: props/C05.v lib/Bytes.vio gen/Facts_render.vio model/RendererM.vio proofs/Renderer_proofs.vio model/RunLoopM.vio proofs/RunLoop_proofs.vio
+props/C05.vos props/C05.vok props/C05.required_vos: props/C05.v lib/Bytes.vos gen/Facts_render.vos model/RendererM.vos proofs/Renderer_proofs.vos model/RunLoopM.vos proofs/RunLoop_proofs.vos
 props/C13.vo props/C13.glob props/C13.v.beautified props/C13.required_vo: props/C13.v lib/Bytes.vo gen/Facts_render.vo model/RendererM.vo model/TCalcM.vo proofs/TCalc_proofs.vo
 props/C13.vio: props/C13.v lib/Bytes.vio gen/Facts_render.vio model/RendererM.vio model/TCalcM.vio proofs/TCalc_proofs.vio
 props/C13.vos props/C13.vok props/C13.required_vos: props/C13.v lib/Bytes.vos gen/Facts_render.vos model/RendererM.vos model/TCalcM.vos proofs/TCalc_proofs.vos
